@@ -316,8 +316,11 @@ struct C19 : public Driver {
         docs.push(d0.xml.substr(0, d0.xml.size() * 2 / 3));
         Json sheets = Json::array(); sheets.push(s0.xsl); sheets.push(s1.xsl);
         { std::string bad = s0.xsl; size_t q = g.chance(1, 2) ? bad.find("select=\"") : bad.rfind("select=\""); if (q != std::string::npos) bad.insert(q + 8, "((["); sheets.push(bad); }      // the mistake comes early or late in the stylesheet
+        // a stylesheet whose first child includes a file that is not there, or one that is not XML from its first byte: the compile fails inside the include
+        { Rng gi = g.fork("bad-include"); const bool missing = gi.chance(1, 2);
+          sheets.push(std::string("<?xml version=\"1.0\"?><xsl:stylesheet version=\"1.0\" xmlns:xsl=\"http://www.w3.org/1999/XSL/Transform\"><xsl:include href=\"") + (missing ? "nosuch-inc.xsl" : "badinc.xsl") + "\"/><xsl:template match=\"/\"><o/></xsl:template></xsl:stylesheet>"); }
         p["docs"] = docs; p["sheets"] = sheets;
-        Json res = Json::object(); for (auto& kv : s0.resources) res[kv.first] = kv.second; for (auto& kv : s1.resources) res[kv.first] = kv.second;
+        Json res = Json::object(); res["badinc.xsl"] = "<<< not xml"; for (auto& kv : s0.resources) res[kv.first] = kv.second; for (auto& kv : s1.resources) res[kv.first] = kv.second;
         p["resources"] = res;
         p["good_doc"] = "<?xml version=\"1.0\"?><r><i v=\"3\">x</i><i v=\"4\">y</i></r>";
         p["good_ss"] = "<?xml version=\"1.0\"?><xsl:stylesheet version=\"1.0\" xmlns:xsl=\"http://www.w3.org/1999/XSL/Transform\"><xsl:key name=\"k\" match=\"i\" use=\"@v\"/><xsl:template match=\"/\"><o s=\"{sum(//i/@v)}\"><xsl:for-each select=\"//i\"><xsl:sort select=\"@v\" order=\"descending\"/><xsl:number/>:<xsl:value-of select=\"key('k',@v)\"/>;</xsl:for-each></o></xsl:template></xsl:stylesheet>";
@@ -328,10 +331,10 @@ struct C19 : public Driver {
         int n = (int)g.range(2, 6);
         for (int i = 0; i < n; ++i) {
             unsigned r = (unsigned)g.below(12);
-            if (r == 0) { Json& o = op("compile"); o["sheet"] = (int)g.below(3); }
+            if (r == 0) { Json& o = op("compile"); o["sheet"] = (int)g.below(3); if (g.fork("bad-include-op").chance(1, 3)) o["sheet"] = 3; }
             else if (r == 1) { Json& o = op("parse"); o["doc"] = (int)g.below(3); o["xerces"] = g.chance(1, 3); }
             else if (r <= 7) {
-                Json& o = op("transform"); o["doc"] = (int)(g.chance(1, 6) ? 2 : g.below(2)); o["sheet"] = (int)(g.chance(1, 6) ? 2 : g.below(2));
+                Json& o = op("transform"); o["doc"] = (int)(g.chance(1, 6) ? 2 : g.below(2)); o["sheet"] = (int)(g.chance(1, 6) ? 2 : g.below(2)); if (g.fork("bad-include-tr").chance(1, 10)) o["sheet"] = 3;
                 o["src"] = g.chance(1, 3) ? "parsed" : "stream"; o["ss"] = g.chance(1, 3) ? "compiled" : (g.chance(1, 5) ? "pi" : "stream"); o["target"] = g.chance(1, 3) ? "ostream" : "callback";
                 o["psi"] = (int)g.below(4); o["csi"] = (int)g.below(4);
             }
